@@ -1,5 +1,7 @@
 #pragma once
 
+#include <errno.h>
+
 #include <optional>
 #include <string>
 #include <unordered_map>
@@ -179,6 +181,7 @@ private:
   static RetT parse_int(const IdentT& id, const std::string& text, IntFormat format) {
     int64_t v;
     char* conversion_end;
+    errno = 0;
     switch (format) {
       case IntFormat::DEFAULT:
         v = strtoull(text.c_str(), &conversion_end, 0);
@@ -206,6 +209,9 @@ private:
         break;
       default:
         throw std::logic_error(exc_prefix(id) + "invalid integer format");
+    }
+    if (errno == ERANGE) {
+      throw std::invalid_argument(exc_prefix(id) + "value does not fit in 64 bits");
     }
     if (*conversion_end != '\0') {
       throw std::invalid_argument(exc_prefix(id) + "extra data after integer");
